@@ -5,6 +5,7 @@
 package hs
 
 import (
+	"errors"
 	"fmt"
 	"io"
 	"time"
@@ -17,14 +18,17 @@ import (
 
 // Scenario describes the endpoints of one handshake.
 type Scenario struct {
-	Hidden    bool
-	Policy    string // server's client verification: nil | skip | store | authkeys | both
-	ServerAdv string // ok | wrongkey | othername | othertype | expired | notyet | wrongtype | otherroot | selfsigned
-	ClientAdv string // ok | wrongkey | expired | otherroot | selfsigned | wrongtype
-	KeyListed bool   // the client's certified key is in the server's authorized-key set
-	Revoked   bool   // … it was, and has been removed again before the handshake
-	NoName    bool   // the client does not ask for a particular server name
-	Decoys    int    // hidden mode: certificates of other virtual hosts ahead of the real one in the server's list
+	Hidden     bool
+	Policy     string // server's client verification: nil | skip | store | authkeys | both
+	ServerAdv  string // ok | wrongkey | othername | othertype | expired | notyet | wrongtype | otherroot | selfsigned
+	ClientAdv  string // ok | wrongkey | expired | otherroot | selfsigned | wrongtype
+	KeyListed  bool   // the client's certified key is in the server's authorized-key set
+	Revoked    bool   // … it was, and has been removed again before the handshake
+	NoName     bool   // the client does not ask for a particular server name
+	ServerCB   string // additional verify callback in the server's client policy: "" | ok | deny
+	ClientSkip bool   // the client's VerifyConfig has InsecureSkipVerify
+	ClientCB   string // additional verify callback in the client's VerifyConfig: "" | ok | deny
+	Decoys     int    // hidden mode: certificates of other virtual hosts ahead of the real one in the server's list
 }
 
 // Result is what the endpoints concluded.
@@ -130,6 +134,9 @@ func BuildServer(sc Scenario) (*tnet.Srv, *keys.KEMPublicKey, *transport.VerifyC
 	if cv != nil && (sc.ClientAdv == "expired") {
 		cv.CurrentTime = time.Now().Add(time.Hour)
 	}
+	if cv != nil && sc.ServerCB != "" {
+		cv.AddVerifyCallback = callback(sc.ServerCB)
+	}
 	scfg := transport.ServerConfig{
 		KeyPair: sHeld, KEMKeyPair: kem, Certificate: sLeaf, Intermediate: sInter, ClientVerify: cv,
 		IsHidden: sc.Hidden, MaxPendingConnections: 4,
@@ -177,6 +184,10 @@ func BuildClient(sc Scenario, addr int, kemPub *keys.KEMPublicKey) *tnet.Cli {
 	if !sc.NoName {
 		verify.Name = certs.RawStringName(tnet.ServerName)
 	}
+	verify.InsecureSkipVerify = sc.ClientSkip
+	if sc.ClientCB != "" {
+		verify.AddVerifyCallback = callback(sc.ClientCB)
+	}
 	ccfg := transport.ClientConfig{Exchanger: cHeld, Leaf: cLeaf, Intermediate: cInter, Verify: verify}
 	if sc.Hidden {
 		ccfg.ServerKEMKey = kemPub
@@ -184,6 +195,16 @@ func BuildClient(sc Scenario, addr int, kemPub *keys.KEMPublicKey) *tnet.Cli {
 	cl := tnet.NewCli(tnet.Addr(addr), ccfg)
 	cl.CertKey = cLeaf.PublicKey
 	return cl
+}
+
+// callback is an additional verification callback that accepts ("ok") or refuses every certificate
+func callback(kind string) transport.AdditionalVerifyCallback {
+	return func(*certs.Certificate) error {
+		if kind == "ok" {
+			return nil
+		}
+		return errors.New("refused by the additional callback")
+	}
 }
 
 type randReader struct{}
